@@ -30,3 +30,7 @@ Definition st_left (p : ptr) (q : ptr) := st (fun c => mkcell (c_red c) q (c_rig
 Definition st_right (p : ptr) (q : ptr) := st (fun c => mkcell (c_red c) (c_left c) q) p.
 Definition is_null (p : ptr) : bool := match p with None => true | Some _ => false end.
 Definition null : ptr := None.
+(* free(p): the node object is no longer allocated; freeing NULL's target or an unallocated object is Crash *)
+Definition del (h : heap) (i : positive) : heap := fun j => if Pos.eqb j i then None else h j.
+Definition free_node (p : ptr) : M unit :=
+  fun h => match p with Some i => match h i with Some _ => Ok (tt, del h i) | None => Crash end | None => Crash end.
